@@ -26,7 +26,7 @@ theorem finBefore_good {inp : RunInput} {s : Sys} (hF : InvF inp s) {d : Name} (
 
 /-- every dependency of a cleared task is executed / up-to-date -/
 theorem cleared_dep_good {inp : RunInput} {s : Sys} (h2 : Inv2 inp s) (hG : InvG inp s) (hF : InvF inp s)
-    {t d : Name} (hc : Cleared s t) (hd : DepOn inp t d) : (stOf s d).good = true := by
+    {t d : Name} (hc : Cleared s t) (hd : DepOnE inp s.events t d) : (stOf s d).good = true := by
   have viaGo : (∃ deps, Ev.go t deps ∈ s.events) → (stOf s d).good = true := by
     rintro ⟨deps, hg⟩
     obtain ⟨cs, hcl⟩ := hG.gd t deps hg
@@ -44,19 +44,32 @@ theorem cleared_dep_good {inp : RunInput} {s : Sys} (h2 : Inv2 inp s) (hG : InvG
     · -- up-to-date
       cases hd with
       | ns h => exact (hF.ud t hst).2 d h
-      | setup _ hne => exact absurd (hF.ud t hst).1 hne
+      | setup _ hne => exact absurd ((h2.g t).2 hst) hne
     · -- executed
       exact viaGo (hF.ok t ((h2.g t).1 hst)).2
 
 theorem cleared_plus_good {inp : RunInput} {s : Sys} (h2 : Inv2 inp s) (hG : InvG inp s) (hF : InvF inp s)
-    {t d : Name} (hd : DepPlus inp t d) : Cleared s t → (stOf s d).good = true := by
+    {t d : Name} (hd : DepPlusE inp s.events t d) : Cleared s t → (stOf s d).good = true := by
   induction hd with
   | one h => exact fun hc => cleared_dep_good h2 hG hF hc h
   | more h _ ih => exact fun hc => ih (Or.inr (cleared_dep_good h2 hG hF hc h))
 
+/-- the static relation is contained in the one the run determines -/
+theorem depOn_depOnE {inp : RunInput} {s : Sys} (hF : InvF inp s) {t d : Name} (h : DepOn inp t d) :
+    DepOnE inp s.events t d := by
+  cases h with
+  | ns h => exact .ns h
+  | setup h hne => exact .setup h (fun hu => hne (hF.ud t (hF.ut t hu)).1)
+
+theorem depPlus_depPlusE {inp : RunInput} {s : Sys} (hF : InvF inp s) {t d : Name} (h : DepPlus inp t d) :
+    DepPlusE inp s.events t d := by
+  induction h with
+  | one h => exact .one (depOn_depOnE hF h)
+  | more h _ ih => exact .more (depOn_depOnE hF h) ih
+
 /-- core of (a): if `d` has a failure report and `t` depends on `d`, `select_task` never clears `t` -/
 theorem failed_dep_never_started {inp : RunInput} {s : Sys} (h2 : Inv2 inp s) (hG : InvG inp s) (hF : InvF inp s)
-    {t d : Name} {k : FailKind} (hf : Ev.failure d k ∈ s.events) (hd : DepPlus inp t d) :
+    {t d : Name} {k : FailKind} (hf : Ev.failure d k ∈ s.events) (hd : DepPlusE inp s.events t d) :
     (∀ deps, Ev.go t deps ∉ s.events) ∧ (∀ w, Ev.start t w ∉ s.events) ∧ Ev.success t ∉ s.events ∧
       Ev.skipUtd t ∉ s.events := by
   have hfail := hF.fl d k hf
